@@ -1018,17 +1018,30 @@ def event_graph(fn, role_of, ret_local=0, max_states=40000, branch_role=None, st
                     pk = None
                 prev = dict(decided).get(pk) if pk is not None else None
                 if prev is not None:
-                    # the same place was already discriminated on this path (e.g. drop elaboration): stay consistent
-                    labs = [lab for lab, _ in switch_edges(fn, bb)]
-                    follow = prev if prev in [str(x) for x in labs] else "else"
-                    for lab, tgt in switch_edges(fn, bb):
-                        if str(lab) == follow:
+                    # the same place was already discriminated on this path (e.g. drop elaboration, a second `matches!`):
+                    # stay consistent. What is remembered is a value, or — after an `otherwise` edge — the values it is not.
+                    edges_here = switch_edges(fn, bb)
+                    labs = [str(lab) for lab, _ in edges_here]
+                    if prev.startswith("not:"):
+                        excl = set(prev[4:].split("|"))
+                        follow = [l_ for l_ in labs if l_ not in excl]           # every edge still possible (its own `else` included)
+                    else:
+                        follow = [prev] if prev in labs else ["else"]
+                    for lab, tgt in edges_here:
+                        if str(lab) in follow:
                             work.append((tgt, (src, frozenset(aliases), label, retv, decided, kb)))
                     continue
                 node = ("ev", _nk(bb, decided), br_roles[bb])
                 g.add(src, label, node)
-                for lab, tgt in switch_edges(fn, bb):
-                    nd = decided | {(pk, str(lab))} if pk is not None else decided
+                edges_here = switch_edges(fn, bb)
+                explicit = [str(lab) for lab, _ in edges_here if lab != "else"]
+                nvar = _variant_count(fn, bb)
+                for lab, tgt in edges_here:
+                    val = str(lab)
+                    if lab == "else":
+                        rest = [str(i) for i in range(nvar) if str(i) not in explicit] if nvar is not None else None
+                        val = rest[0] if rest is not None and len(rest) == 1 else "not:" + "|".join(sorted(explicit))
+                    nd = decided | {(pk, val)} if pk is not None else decided
                     work.append((tgt, (node, frozenset(), str(lab), retv, nd, kb)))
                 continue
             on_result = t.discr.place is not None and t.discr.place.is_local() and t.discr.place.local in aliases
@@ -1080,6 +1093,20 @@ def event_graph(fn, role_of, ret_local=0, max_states=40000, branch_role=None, st
         for s2 in fn.succs(bb):
             work.append((s2, (src, frozenset(aliases), label, retv, decided, kb)))
     return g
+
+
+def _variant_count(fn, bb):
+    """number of variants of the enum whose discriminant block bb switches on, when known"""
+    ty = discr_type_of_switch(fn, bb)
+    if ty is None:
+        return None
+    if TWO_VARIANT.get(ty) == 2:
+        return 2
+    prog = getattr(fn, "prog", None)
+    adt = prog.adts.get(ty) if prog is not None else None
+    if adt is None and prog is not None:
+        adt = prog.adts.get(strip_generics(ty))
+    return len(adt["variants"]) if adt else None
 
 
 def _switch_place_key(fn, bb):
